@@ -390,6 +390,7 @@ func (l *vC01Lab) populate(z *vC01LZone) {
 		&dns.A{Hdr: dns.RR_Header{Name: sub("www"), Rrtype: dns.TypeA, Class: dns.ClassINET, Ttl: 300}, A: net.IPv4(192, 0, 2, 81).To4()})
 	z.add(&dns.CNAME{Hdr: dns.RR_Header{Name: sub("alias"), Rrtype: dns.TypeCNAME, Class: dns.ClassINET, Ttl: 300}, Target: sub("www")})
 	z.add(&dns.A{Hdr: dns.RR_Header{Name: sub("*.wild"), Rrtype: dns.TypeA, Class: dns.ClassINET, Ttl: 300}, A: net.IPv4(192, 0, 2, 90).To4()})
+	z.add(&dns.A{Hdr: dns.RR_Header{Name: sub("real.wild"), Rrtype: dns.TypeA, Class: dns.ClassINET, Ttl: 300}, A: net.IPv4(192, 0, 2, 95).To4()})
 	z.add(&dns.DNAME{Hdr: dns.RR_Header{Name: sub("dn"), Rrtype: dns.TypeDNAME, Class: dns.ClassINET, Ttl: 300}, Target: sub("tgt")})
 	z.add(&dns.A{Hdr: dns.RR_Header{Name: sub("x.tgt"), Rrtype: dns.TypeA, Class: dns.ClassINET, Ttl: 300}, A: net.IPv4(192, 0, 2, 91).To4()})
 }
@@ -757,6 +758,25 @@ func (l *vC01Lab) install(kind, target string) bool {
 				m.Ns = append(s.soa(z), s.nsec(z, z.name)...)
 			}
 		}
+	case "wildcard-replay", "wildcard-replay-decoy": // a name that exists is answered with the zone's genuine wildcard RRset and RRSIG, no next-closer denial
+		f = func(s *vC01LServer, z *vC01LZone, q dns.Question, m *dns.Msg) {
+			if z != tz || q.Qtype != dns.TypeA || !strings.HasPrefix(strings.ToLower(q.Name), "real.wild.") {
+				return
+			}
+			signed := s.sign(z, z.get("*.wild."+z.name, dns.TypeA))
+			m.Answer, m.Ns = nil, nil
+			for _, rr := range signed {
+				c := dns.Copy(rr)
+				c.Header().Name = q.Name
+				if sg, ok := c.(*dns.RRSIG); ok && kind == "wildcard-replay-decoy" {
+					d := dns.Copy(sg).(*dns.RRSIG)
+					d.Labels = uint8(dns.CountLabel(q.Name))
+					d.Signature = vC01FlipSig(rand.New(rand.NewSource(2)), d.Signature)
+					m.Answer = append(m.Answer, d)
+				}
+				m.Answer = append(m.Answer, c)
+			}
+		}
 	case "inject-foreign":
 		f = func(s *vC01LServer, z *vC01LZone, q dns.Question, m *dns.Msg) {
 			if z == tz && len(m.Answer) > 0 && q.Qtype == dns.TypeA {
@@ -821,10 +841,12 @@ func (l *vC01Lab) dataOK(m *dns.Msg, scn vC01Scn) bool {
 		ok := false
 		for _, z := range l.zones {
 			cands := z.get(h.Name, h.Rrtype)
-			// wildcard source
+			// wildcard source, for a name the zone does not hold
 			labels := dns.SplitDomainName(h.Name)
-			for i := 1; i < len(labels); i++ {
-				cands = append(cands, z.get("*."+strings.Join(labels[i:], ".")+".", h.Rrtype)...)
+			if !(dns.IsSubDomain(z.name, h.Name) && z.exists(h.Name)) {
+				for i := 1; i < len(labels); i++ {
+					cands = append(cands, z.get("*."+strings.Join(labels[i:], ".")+".", h.Rrtype)...)
+				}
 			}
 			for _, c := range cands {
 				if strings.TrimPrefix(c.String(), c.Header().String()) == strings.TrimPrefix(rr.String(), h.String()) {
@@ -864,11 +886,11 @@ func TestVerifC01Lab(t *testing.T) {
 	}
 	queries := func(zone string) []tq {
 		return []tq{{"www." + zone, dns.TypeA, 0}, {"alias." + zone, dns.TypeA, 0}, {"nx." + zone, dns.TypeA, 3}, {"www." + zone, dns.TypeAAAA, 0},
-			{"foo.wild." + zone, dns.TypeA, 0}, {"x.dn." + zone, dns.TypeA, 0}}
+			{"foo.wild." + zone, dns.TypeA, 0}, {"x.dn." + zone, dns.TypeA, 0}, {"real.wild." + zone, dns.TypeA, 0}}
 	}
 	topos := []string{"separate", "separate", "insecure-child", "wrongds", "shared-secure", "shared-secure", "shared-insecure", "shared-island"}
 	tampers := []string{"none", "none", "strip-sigs", "alter-a", "expired", "signer-name", "bitflip", "labels", "forged-untrusted-key", "dnskey-extra-key",
-		"ds-swap", "ds-drop", "nsec-drop", "nxdomain-forged", "inject-foreign", "island-hijack", "no-anchor"}
+		"ds-swap", "ds-drop", "nsec-drop", "nxdomain-forged", "inject-foreign", "island-hijack", "no-anchor", "wildcard-replay", "wildcard-replay-decoy"}
 	for i := 0; i < n; i++ {
 		topo := topos[i%len(topos)]
 		tam := tampers[(i/len(topos)+i)%len(tampers)]
@@ -886,6 +908,9 @@ func TestVerifC01Lab(t *testing.T) {
 		q := qs[r.Intn(len(qs))]
 		if tam == "nsec-drop" {
 			q = qs[2+r.Intn(2)]
+		}
+		if tam == "wildcard-replay" || tam == "wildcard-replay-decoy" {
+			q = qs[6]
 		}
 		if tam == "nxdomain-forged" || tam == "alter-a" || tam == "forged-untrusted-key" || tam == "dnskey-extra-key" || tam == "island-hijack" || tam == "ds-swap" || tam == "ds-drop" || tam == "inject-foreign" || tam == "expired" {
 			q = qs[0]
